@@ -3,6 +3,7 @@ import exec as E
 import trace as TR
 from poly import Poly, ONE, ZERO, sym_int
 from values import Agg, SymV, IntV, BoolV, Ptr
+from rules.C08 import same_on_path   # equality modulo the path's own equalities
 from rules import common as C
 from rules import draw as D
 
@@ -117,7 +118,7 @@ def task(R, item):
                     want_p = [iy + offR, iy + ih - 1 + offR]
                     got_c, got_p = [f.simplify(v) for v in ws[0][2]], [f.simplify(v) for v in ws[1][2]]
                     seen = True
-                    R.ob("C01b-entry-feeds-window", "%s|%s|window" % (otag, nm), got_c == want_c and got_p == want_p,
+                    R.ob("C01b-entry-feeds-window", "%s|%s|window" % (otag, nm), all(same_on_path(f, a_, b_) for a_, b_ in zip(got_c + got_p, want_c + want_p)),
                          "%s addresses columns %s / pages %s; the clipped rectangle's corners with the orientation's offsets are %s / %s"
                          % (nm, got_c, got_p, want_c, want_p), sample={"entry": nm, "orientation": [q * 90, m], "caset": [repr(v) for v in got_c]})
                     # (intersection is symmetric: either operand may be the logical bounds, the other the caller's rectangle)
